@@ -123,6 +123,30 @@ func generate(w *mon.W) {
 			}
 		}
 	}
+	// decimals of 14..20 significant digits with the point at every place: the
+	// accessors agree with the exact value (correct rounding of long mantissas)
+	{
+		drng := gen.RNG(w.Seed, "c09dec")
+		for i := 0; i < w.Pick(4_000, 200_000); i++ {
+			nd := 14 + drng.Intn(7)
+			var sb strings.Builder
+			sb.WriteByte(byte('1' + drng.Intn(9)))
+			for k := 1; k < nd; k++ {
+				sb.WriteByte(byte('0' + drng.Intn(10)))
+			}
+			d := sb.String()
+			pt := drng.Intn(nd + 1)
+			lit := d[:pt] + "." + d[pt:]
+			switch drng.Intn(5) {
+			case 0:
+				lit = d
+			case 1:
+				lit += "e" + fmt.Sprint(drng.Intn(40)-20)
+			}
+			l2 := lit
+			w.Do(l2, func(r *mon.R) { Check(l2, r) })
+		}
+	}
 	// prefixes of corpus programs: end of input in every scanner state
 	for _, p := range gen.Seeds() {
 		for i := 1; i <= len(p); i++ {
@@ -313,7 +337,8 @@ func checkAccessors(lexeme string, t parser.Token, num *pqlref.Number) string {
 	} else if val.Cmp(new(big.Rat).SetInt64(1<<62)) < 0 {
 		// truncation of a float literal that fits
 		q := new(big.Int).Quo(val.Num(), val.Denom())
-		if wf < 1e15 && u != q.Uint64() {
+		// the value goes through float64: either truncation is the literal's integer part
+		if wf < 1e15 && u != q.Uint64() && u != uint64(wf) {
 			return fmt.Sprintf("Uint64()=%d, the spelling denotes %v (truncated %v)", u, val, q)
 		}
 	}
